@@ -122,6 +122,9 @@ struct CrashState {
     /// path -> installed length (None = full written length)
     cuts: BTreeMap<PathBuf, u64>,
     others_full: bool,
+    /// the cut files keep their written length, the lost suffix reads as zeros (the file size reached the
+    /// disk, the data blocks did not) instead of being absent
+    zero_fill: bool,
 }
 
 fn install(rec: &Recording, base: &Path, target: &Path, cs: &CrashState) -> BTreeMap<PathBuf, Vec<u8>> {
@@ -156,7 +159,10 @@ fn install(rec: &Recording, base: &Path, target: &Path, cs: &CrashState) -> BTre
         if let Some(parent) = out.parent() {
             let _ = std::fs::create_dir_all(parent);
         }
-        let bytes = content[..l as usize].to_vec();
+        let mut bytes = content[..l as usize].to_vec();
+        if cs.zero_fill && cs.cuts.contains_key(p) {
+            bytes.resize(content.len(), 0);
+        }
         let _ = std::fs::write(&out, &bytes);
         installed.insert(out, bytes);
     }
@@ -433,8 +439,8 @@ fn eval_history<const N: usize>(ctx: &Ctx, sh: &mut Shard, rng: &mut Rng, cfg: &
         }
         let mut states: Vec<CrashState> = Vec::new();
         // extremes
-        states.push(CrashState { point, cuts: BTreeMap::new(), others_full: true });
-        states.push(CrashState { point, cuts: BTreeMap::new(), others_full: false });
+        states.push(CrashState { point, cuts: BTreeMap::new(), others_full: true, zero_fill: false });
+        states.push(CrashState { point, cuts: BTreeMap::new(), others_full: false, zero_fill: false });
         for (p, c, s) in tails.iter() {
             let lens = interesting_lengths(c, *s, ext_of(p), rng, ctx.thorough());
             let lens: Vec<u64> = if ctx.thorough() { lens } else {
@@ -447,7 +453,13 @@ fn eval_history<const N: usize>(ctx: &Ctx, sh: &mut Shard, rng: &mut Rng, cfg: &
                 for others_full in [true, false] {
                     let mut cuts = BTreeMap::new();
                     cuts.insert(p.clone(), l);
-                    states.push(CrashState { point, cuts, others_full });
+                    // one cut in ten also as a zero-filled tail. The property quantifies over truncation lengths, so
+                    // these states are observed and counted, never judged (see `observations_zero_fill_*`)
+                    let zero_fill = l < c.len() as u64 && rng.chance(1, 10);
+                    if zero_fill {
+                        states.push(CrashState { point, cuts: cuts.clone(), others_full, zero_fill: true });
+                    }
+                    states.push(CrashState { point, cuts, others_full, zero_fill: false });
                 }
             }
         }
@@ -458,7 +470,7 @@ fn eval_history<const N: usize>(ctx: &Ctx, sh: &mut Shard, rng: &mut Rng, cfg: &
                 for (p, c, s) in tails.iter() {
                     cuts.insert(p.clone(), rng.range(*s, c.len() as u64));
                 }
-                states.push(CrashState { point, cuts, others_full: true });
+                states.push(CrashState { point, cuts, others_full: true, zero_fill: false });
             }
         }
         for (si, cs) in states.iter().enumerate() {
@@ -483,7 +495,10 @@ fn eval_history<const N: usize>(ctx: &Ctx, sh: &mut Shard, rng: &mut Rng, cfg: &
                 sh.nontrivial.insert(fnv(format!("{}|{}|{:?}|{}", history_short(ops), point, cuts_desc, cs.others_full).as_bytes()));
             }
             sh.add(if c2.ignore_corrupted { "states_ignore_corrupted" } else { "states_quarantine_mode" }, 1);
-            let replay: Value = json!({"check": "c06-powerloss", "cfg": c2.to_json(), "hist_id": hid, "history": history_json(ops), "short": history_short(ops), "crash_point": point, "cuts": cuts_desc, "others_full": cs.others_full});
+            if cs.zero_fill {
+                sh.add("states_zero_filled_tail", 1);
+            }
+            let replay: Value = json!({"check": "c06-powerloss", "cfg": c2.to_json(), "hist_id": hid, "history": history_json(ops), "short": history_short(ops), "crash_point": point, "cuts": cuts_desc, "others_full": cs.others_full, "zero_fill": cs.zero_fill});
             match res {
                 Ok(out) => {
                     sh.add(&format!("init_outcome_{}", out.class), 1);
@@ -495,9 +510,19 @@ fn eval_history<const N: usize>(ctx: &Ctx, sh: &mut Shard, rng: &mut Rng, cfg: &
                         sh.sample(json!({"history": history_short(ops), "crash_after_event": point, "cuts": cuts_desc, "others": if cs.others_full { "full" } else { "synced-only" }, "outcome": out.class}));
                     }
                     if let Some((sig, detail)) = out.violation {
-                        sh.violation(&ctx.known, "C06", ctx.seed, &format!("C06/{}", sig), &format!("crash after event {} cuts {:?} others_full={}: {}", point, cuts_desc, cs.others_full, detail), replay);
+                        if cs.zero_fill {
+                            // outside the stated crash model: recorded as an observation only
+                            let class = sig.split('/').next().unwrap_or("other").to_string();
+                            sh.add(&format!("observations_zero_fill_{}", class), 1);
+                            if ctx.shard == 0 && sh.notes.len() < 2 {
+                                sh.notes.push(format!("observation (zero-filled tail, not judged): {}: {}", sig, detail.chars().take(200).collect::<String>()));
+                            }
+                        } else {
+                            sh.violation(&ctx.known, "C06", ctx.seed, &format!("C06/{}", sig), &format!("crash after event {} cuts {:?} others_full={}: {}", point, cuts_desc, cs.others_full, detail), replay);
+                        }
                     }
                 }
+                Err(_) if cs.zero_fill => sh.add("observations_zero_fill_panic", 1),
                 Err(p) => {
                     let short: String = p.chars().take(100).collect();
                     sh.violation(&ctx.known, "C06", ctx.seed, "C06/panic-at-recovery", &format!("crash after event {} cuts {:?}: panic {}", point, cuts_desc, short), replay);
